@@ -171,11 +171,12 @@ type SMT struct {
 	axiomDone map[string]bool
 	nfresh   int
 	strConsts map[string]Term
+	alias map[string]string
 	recDefs []string
 }
 
 func newSMT() *SMT {
-	return &SMT{declared: map[string]bool{}, sortDone: map[string]bool{}, axiomDone: map[string]bool{}, strConsts: map[string]Term{}}
+	return &SMT{declared: map[string]bool{}, sortDone: map[string]bool{}, axiomDone: map[string]bool{}, strConsts: map[string]Term{}, alias: map[string]string{}}
 }
 
 func (m *SMT) fresh(prefix, sort string) Term {
@@ -215,6 +216,7 @@ func (m *SMT) define(prefix string, t Term) Term {
 	m.nfresh++
 	name := fmt.Sprintf("%s!%d", smtIdent(prefix), m.nfresh)
 	m.declared[name] = true
+	m.alias[name] = t.S
 	if t.Sort == SBool {
 		m.decls = append(m.decls, Decl{name, fmt.Sprintf("(define-fun %s () %s %s)", name, t.Sort, t.S)})
 	} else {
